@@ -31,6 +31,12 @@ Record settled_on (w : world) (c : tlt) : Prop := {
 Definition accepts (w : world) (x : tlt) : Prop :=
   kind_of w (trk x) = Playable /\ (match script w with b :: _ => b | [] => false end) = false.
 
+(* what a client command on a running player leaves as it was *)
+Definition stable (w w' : world) : Prop :=
+  World.tl w' = World.tl w /\ tkinds w' = tkinds w /\ tlens w' = tlens w
+  /\ consume w' = consume w /\ random w' = random w /\ repeat w' = repeat w /\ single w' = single w
+  /\ (script w = [] -> script w' = []) /\ (a_fresh w = false -> a_fresh w' = false).
+
 (* record extensionality for worlds *)
 Lemma world_ext (a b : world) :
   World.tl a = World.tl b ->
@@ -235,10 +241,11 @@ Proof. intros E. step E. reflexivity. Qed.
 (* ------------------------------------------------------------------ the prediction theorem *)
 
 (* Playing: next(), then the four pending notifications *)
-Theorem next_prediction_playing f x c w :
+Theorem next_prediction_playing_full f x c w :
   settled_on w c -> pstate w = Playing -> consume w = false -> accepts w x ->
   next_track shuf (Some c) w = (Ok (Some x), w) ->
   let w' := run_world shuf (S f) w [Next; Deliver; Deliver; Deliver; Deliver] in
+  settled_on w' x /\ stable w w' /\
   current w' = Some x /\ pstate w' = Playing /\ pending w' = None /\ queue w' = []
   /\ a_uri w' = Some (trk x) /\ a_state w' = Playing /\ World.tl w' = World.tl w.
 Proof.
@@ -295,8 +302,20 @@ Proof.
   assert (D4' : (deliver shuf (S f) ;; ret RNone)%M w4' = (Ok RNone, w5)).
   { apply (run_op_bind_none _ w4' tt w5). exact D4. }
   rewrite (stepw_eq (S f) Deliver w4' RNone w5 _ _ D4' G5).
+  split; [constructor; try reflexivity; try assumption; try (apply Hbx; reflexivity);
+           try (cbn; split; first [reflexivity|assumption]); try (cbn; assumption)|].
+  split; [unfold stable; repeat split; try reflexivity; try assumption;
+           try (intros Hs0; cbn; rewrite ?Hs0; cbn; rewrite ?Hs0; first [reflexivity|assumption])|].
   repeat split; reflexivity.
 Qed.
+
+Theorem next_prediction_playing f x c w :
+  settled_on w c -> pstate w = Playing -> consume w = false -> accepts w x ->
+  next_track shuf (Some c) w = (Ok (Some x), w) ->
+  let w' := run_world shuf (S f) w [Next; Deliver; Deliver; Deliver; Deliver] in
+  current w' = Some x /\ pstate w' = Playing /\ pending w' = None /\ queue w' = []
+  /\ a_uri w' = Some (trk x) /\ a_state w' = Playing /\ World.tl w' = World.tl w.
+Proof. intros. cbv zeta. eapply proj2. eapply proj2. eapply next_prediction_playing_full; eassumption. Qed.
 
 (* the audio layer reports paused while the core believes playing: the core follows *)
 Definition fx_paused (x : tlt) (w : world) : world :=
@@ -325,10 +344,11 @@ Ltac gtp_of wv cv Hpp Hbk :=
 
 (* Paused: next(), then the three pending notifications; the core passes through playing
    (stream_changed) and returns to paused when the audio layer's state report arrives *)
-Theorem next_prediction_paused f x c w :
+Theorem next_prediction_paused_full f x c w :
   settled_on w c -> pstate w = Paused -> consume w = false -> accepts w x ->
   next_track shuf (Some c) w = (Ok (Some x), w) ->
   let w' := run_world shuf (S f) w [Next; Deliver; Deliver; Deliver] in
+  settled_on w' x /\ stable w w' /\
   current w' = Some x /\ pstate w' = Paused /\ pending w' = None /\ queue w' = []
   /\ a_uri w' = Some (trk x) /\ a_state w' = Paused /\ World.tl w' = World.tl w.
 Proof.
@@ -373,8 +393,20 @@ Proof.
   assert (G4 : get_time_position w4 = (Ok (a_pos w4), fx_gtp w4)).
   { apply (gtp_run w4 x); [exact Hpp|reflexivity|apply Hbx; reflexivity]. }
   rewrite (stepw_eq (S f) Deliver w3' RNone w4 _ _ (run_op_bind_none _ w3' tt w4 D3) G4).
+  split; [constructor; try reflexivity; try assumption; try (apply Hbx; reflexivity);
+           try (cbn; split; first [reflexivity|assumption]); try (cbn; assumption)|].
+  split; [unfold stable; repeat split; try reflexivity; try assumption;
+           try (intros Hs0; cbn; rewrite ?Hs0; cbn; rewrite ?Hs0; first [reflexivity|assumption])|].
   repeat split; reflexivity.
 Qed.
+
+Theorem next_prediction_paused f x c w :
+  settled_on w c -> pstate w = Paused -> consume w = false -> accepts w x ->
+  next_track shuf (Some c) w = (Ok (Some x), w) ->
+  let w' := run_world shuf (S f) w [Next; Deliver; Deliver; Deliver] in
+  current w' = Some x /\ pstate w' = Paused /\ pending w' = None /\ queue w' = []
+  /\ a_uri w' = Some (trk x) /\ a_state w' = Paused /\ World.tl w' = World.tl w.
+Proof. intros. cbv zeta. eapply proj2. eapply proj2. eapply next_prediction_paused_full; eassumption. Qed.
 
 (* Stopped: next() selects the announced track at once and stays stopped *)
 Theorem next_prediction_stopped f x c w :
@@ -429,10 +461,11 @@ Proof.
   step Hc'. reflexivity.
 Qed.
 
-Theorem previous_prediction_playing f x c w :
+Theorem previous_prediction_playing_full f x c w :
   settled_on w c -> pstate w = Playing -> consume w = false -> accepts w x ->
   previous_track (Some c) w = (Ok (Some x), w) ->
   let w' := run_world shuf (S f) w [Previous; Deliver; Deliver; Deliver; Deliver] in
+  settled_on w' x /\ stable w w' /\
   current w' = Some x /\ pstate w' = Playing /\ pending w' = None /\ queue w' = []
   /\ a_uri w' = Some (trk x) /\ a_state w' = Playing /\ World.tl w' = World.tl w.
 Proof.
@@ -484,8 +517,20 @@ Proof.
   assert (D4' : (deliver shuf (S f) ;; ret RNone)%M w4' = (Ok RNone, w5)).
   { apply (run_op_bind_none _ w4' tt w5). exact D4. }
   rewrite (stepw_eq (S f) Deliver w4' RNone w5 _ _ D4' G5).
+  split; [constructor; try reflexivity; try assumption; try (apply Hbx; reflexivity);
+           try (cbn; split; first [reflexivity|assumption]); try (cbn; assumption)|].
+  split; [unfold stable; repeat split; try reflexivity; try assumption;
+           try (intros Hs0; cbn; rewrite ?Hs0; cbn; rewrite ?Hs0; first [reflexivity|assumption])|].
   repeat split; reflexivity.
 Qed.
+
+Theorem previous_prediction_playing f x c w :
+  settled_on w c -> pstate w = Playing -> consume w = false -> accepts w x ->
+  previous_track (Some c) w = (Ok (Some x), w) ->
+  let w' := run_world shuf (S f) w [Previous; Deliver; Deliver; Deliver; Deliver] in
+  current w' = Some x /\ pstate w' = Playing /\ pending w' = None /\ queue w' = []
+  /\ a_uri w' = Some (trk x) /\ a_state w' = Playing /\ World.tl w' = World.tl w.
+Proof. intros. cbv zeta. eapply proj2. eapply proj2. eapply previous_prediction_playing_full; eassumption. Qed.
 
 (* ------------------------------------------------------------------ natural end of track *)
 
